@@ -13,6 +13,7 @@ structure Acc (S : Type) where
   fee : Nat
   tips : Nat
   gas : Nat
+  deriving DecidableEq
 
 /-- result of applying one transaction: new state, fee, tips, gas (incl. receipt gas) -/
 abbrev Applied (S : Type) := S × Nat × Nat × Nat
@@ -74,5 +75,60 @@ def processTxsLegacy (validate : S → Tx → Bool) (apply : S → Tx → Option
       | none => none
       | some r =>
         if (a.add r).gas > cap then none else processTxsLegacy validate apply cap (a.add r) rest
+
+/-! ### validation that leaves traces (finding F18) and `ProposeBlock`'s re-derivation
+
+`ValidateTx` and a failing `applyTxOnState` are not pure on the check state: reading an identity that does not exist
+creates an empty dirty record there.  `validateD` / `applyD` return the state they leave behind also when they refuse. -/
+
+/-- `filterTxs` with side effects: the check state carries the traces of refused candidates -/
+def filterTxsD (skip : Tx → Bool) (validateD : S → Tx → Bool × S) (applyD : S → Tx → Option (Applied S) × S) (cap : Nat) :
+    Acc S → List Tx → List Tx × Acc S
+  | a, [] => ([], a)
+  | a, tx :: rest =>
+    if skip tx then filterTxsD skip validateD applyD cap a rest
+    else
+      let (ok, s1) := validateD a.st tx
+      if !ok then filterTxsD skip validateD applyD cap { a with st := s1 } rest
+      else match applyD s1 tx with
+        | (none, s2) => filterTxsD skip validateD applyD cap { a with st := s2 } rest
+        | (some r, _) =>
+          let a' := ({ a with st := s1 } : Acc S).add r
+          if a'.gas > cap then ([tx], a')
+          else
+            let res := filterTxsD skip validateD applyD cap a' rest
+            (tx :: res.1, res.2)
+
+/-- `processTxs` with the same side-effecting verdict functions (the validator's check state) -/
+def processTxsD (validateD : S → Tx → Bool × S) (applyD : S → Tx → Option (Applied S) × S) (cap : Nat) :
+    Acc S → Bool → List Tx → Option (Acc S)
+  | a, _, [] => some a
+  | a, reached, tx :: rest =>
+    let (ok, s1) := validateD a.st tx
+    if !ok then none
+    else match applyD s1 tx with
+      | (none, _) => none
+      | (some r, _) =>
+        let a' := ({ a with st := s1 } : Acc S).add r
+        if a'.gas > cap then
+          if reached then none else processTxsD validateD applyD cap a' true rest
+        else processTxsD validateD applyD cap a' reached rest
+
+/-- `ProposeBlock` (blockchain.go:2014-2035) after the repair: when a candidate was dropped the kept list is applied
+again to a clean check state with the strict path, and that result is what the header is derived from; if even that
+fails, the block is proposed without transactions. -/
+def proposeD (skip : Tx → Bool) (validateD : S → Tx → Bool × S) (applyD : S → Tx → Option (Applied S) × S) (cap : Nat)
+    (clean : Acc S) (txs : List Tx) : List Tx × Acc S :=
+  let res := filterTxsD skip validateD applyD cap clean txs
+  if res.1.length < txs.length then
+    match processTxsD validateD applyD cap clean false res.1 with
+    | some a => (res.1, a)
+    | none => ([], clean)
+  else res
+
+/-- the code as found: the header is derived from the building path's own state -/
+def proposeDAsFound (skip : Tx → Bool) (validateD : S → Tx → Bool × S) (applyD : S → Tx → Option (Applied S) × S)
+    (cap : Nat) (clean : Acc S) (txs : List Tx) : List Tx × Acc S :=
+  filterTxsD skip validateD applyD cap clean txs
 
 end IdenaModel.BlockBuild
